@@ -86,6 +86,7 @@ type End struct {
 	ReadFailAfter      int   // >=0: Read fails once this many envelopes were delivered
 	ReadFailErr        error // the error the failing Read returns (nil: ErrReadFault); real transports fail with io.EOF, wrapped errors, ...
 	WriteFailAt        int   // >=0: the k-th Write (0-based) and all later ones fail
+	WriteFailErr       error // the error a Write refused by WriteFailAt / FailNextWrites returns (nil: ErrWriteFault); real transports report wrapped context errors, io errors, ...
 	DropWriteAt        int   // the k-th envelope written on this end is accepted and silently lost (-1: none)
 	DeliverThenFailAt  int   // the k-th envelope written on this end IS delivered, but the Write reports an error (-1: none)
 	FailNextWrites     int   // the next n Writes fail (then the plan continues)
@@ -234,6 +235,9 @@ func (e *End) Write(ctx context.Context, rpc *Rpc) error {
 	}
 	if e.WriteFailAt >= 0 && k >= e.WriteFailAt {
 		e.WriteFaulted = true
+		if e.WriteFailErr != nil {
+			return e.WriteFailErr
+		}
 		return ErrWriteFault
 	}
 	if e.WriteFailsWithRead && e.ReadFailed {
@@ -241,6 +245,9 @@ func (e *End) Write(ctx context.Context, rpc *Rpc) error {
 	}
 	if e.FailNextWrites > 0 {
 		e.FailNextWrites--
+		if e.WriteFailErr != nil {
+			return e.WriteFailErr
+		}
 		return ErrWriteFault
 	}
 	if e.down {
